@@ -13,14 +13,16 @@ Local Open Scope N_scope.
 Record fstate := mkF {
   f_set : sst;                    (* finalised head (root) and the unfinalised blocks *)
   f_chain : list (N * N);         (* number -> hash of the finalised chain, genesis included *)
-  f_all : list (N * hinfo) }.     (* every block ever accepted (and genesis) *)
+  f_all : list (N * hinfo);       (* every block ever accepted (and genesis) *)
+  f_setid : N }.                  (* the set id of the last accepted request *)
 
 Definition f_genesis (g groot : N) : fstate :=
-  mkF (mkSst g 0 []) [(0, g)] [(g, mkHinfo 0 0 groot)].
+  mkF (mkSst g 0 []) [(0, g)] [(g, mkHinfo 0 0 groot)] 0.
 
 Definition f_add (f : fstate) (hd : header) (root : N) (arrival : Z) : fstate * outcome unit :=
   match s_add (f_set f) hd arrival with
-  | Ok s' => (mkF s' (f_chain f) (put (h_hash hd) (mkHinfo (h_parent hd) (h_number hd) root) (f_all f)), Ok tt)
+  | Ok s' => (mkF s' (f_chain f) (put (h_hash hd) (mkHinfo (h_parent hd) (h_number hd) root) (f_all f))
+             (f_setid f), Ok tt)
   | Err c => (f, Err c)
   | Panic => (f, Panic)
   | OutOfFuel => (f, OutOfFuel)
@@ -37,10 +39,23 @@ Definition f_new_links (f : fstate) (h : N) : list (N * N) :=
   | None => []
   end.
 
+(* the effect of finalising the target h (set ids aside) *)
 Definition f_fin (f : fstate) (h : N) : fstate :=
   if f_admissible f h
-  then mkF (fst (s_fin (f_set f) h)) (f_chain f ++ f_new_links f h) (f_all f)
+  then mkF (fst (s_fin (f_set f) h)) (f_chain f ++ f_new_links f h) (f_all f) (f_setid f)
   else f.
+
+(* a request SetFinalisedHash(h, round, setid) is accepted iff its target is admissible and its
+   set id is not below the one of the last accepted request; the round plays no role (a lower
+   round in the same set is allowed, gossamer issue 3150) *)
+Definition f_accepts (f : fstate) (h setid : N) : bool :=
+  f_admissible f h && (f_setid f <=? setid).
+
+Definition f_with_setid (f : fstate) (setid : N) : fstate :=
+  mkF (f_set f) (f_chain f) (f_all f) setid.
+
+Definition f_request (f : fstate) (h setid : N) : fstate :=
+  if f_accepts f h setid then f_with_setid (f_fin f h) setid else f.
 
 (* ------------------------------------------------------------------ observables *)
 
@@ -48,13 +63,15 @@ Record flags := mkFlags {
   fl_has : bool;       (* HasHeader *)
   fl_get : bool;       (* GetHeader succeeds *)
   fl_unfin : bool;     (* held in unfinalisedBlocks *)
-  fl_trie : bool }.    (* Tries has a trie for the block's state root *)
+  fl_trie : bool;      (* Tries has a trie for the block's state root *)
+  fl_db : bool }.      (* the header is in the database (HasHeaderInDatabase) *)
 
 Record obs := mkObs {
   o_highest : outcome N;                  (* GetHighestFinalisedHash *)
   o_bynum : list (N * outcome N);         (* GetHashByNumber for the listed numbers *)
   o_flags : list (N * flags);             (* per block ever defined *)
-  o_tries : N }.                          (* Tries.len *)
+  o_tries : N;                            (* Tries.len *)
+  o_dbnum : list (N * option N) }.        (* the database's number -> hash index, read directly *)
 
 Definition observe (st : bstate) (blocks : list (N * N)) (nums : list N) : obs :=
   mkObs (highest_finalised_hash st)
@@ -63,8 +80,11 @@ Definition observe (st : bstate) (blocks : list (N * N)) (nums : list N) : obs :
                         mkFlags (has_header st (fst b))
                                 (match get_header st (fst b) with Some _ => true | None => false end)
                                 (match lookup (fst b) (bs_unfin st) with Some _ => true | None => false end)
-                                (mem (snd b) (bs_tries st)))) blocks)
-        (N.of_nat (length (bs_tries st))).
+                                (mem (snd b) (bs_tries st))
+                                (match lookup (fst b) (bs_hdr st) with Some _ => true | None => false end)))
+             blocks)
+        (N.of_nat (length (bs_tries st)))
+        (map (fun n => (n, lookup n (bs_num st))) nums).
 
 Definition outcome_n_eqb (a b : outcome N) : bool :=
   match a, b with
@@ -76,7 +96,13 @@ Definition outcome_n_eqb (a b : outcome N) : bool :=
   end.
 Definition flags_eqb (a b : flags) : bool :=
   eqb (fl_has a) (fl_has b) && eqb (fl_get a) (fl_get b) && eqb (fl_unfin a) (fl_unfin b)
-  && eqb (fl_trie a) (fl_trie b).
+  && eqb (fl_trie a) (fl_trie b) && eqb (fl_db a) (fl_db b).
+Definition option_n_eqb (a b : option N) : bool :=
+  match a, b with
+  | Some x, Some y => x =? y
+  | None, None => true
+  | _, _ => false
+  end.
 Fixpoint list_eqb {A} (e : A -> A -> bool) (l1 l2 : list A) : bool :=
   match l1, l2 with
   | [], [] => true
@@ -87,19 +113,20 @@ Definition obs_eqb (a b : obs) : bool :=
   outcome_n_eqb (o_highest a) (o_highest b)
   && list_eqb (fun p q => (fst p =? fst q) && outcome_n_eqb (snd p) (snd q)) (o_bynum a) (o_bynum b)
   && list_eqb (fun p q => (fst p =? fst q) && flags_eqb (snd p) (snd q)) (o_flags a) (o_flags b)
-  && (o_tries a =? o_tries b).
+  && (o_tries a =? o_tries b)
+  && list_eqb (fun p q => (fst p =? fst q) && option_n_eqb (snd p) (snd q)) (o_dbnum a) (o_dbnum b).
 
 (* ------------------------------------------------------------------ the property predicates *)
 
-(* 1. monotone: a request succeeds only for an admissible target, and then the head is the
-      target; any other request fails and every observable is as before *)
-Definition check_request (f : fstate) (h : N) (ok : bool) (before after : obs) : bool :=
-  if f_admissible f h then
-    (if ok then outcome_n_eqb (o_highest after) (Ok h) else true)
+(* 1. monotone: an accepted request (admissible target, set id not below the recorded one)
+      succeeds and the head is then the target; ANY other request fails and every observable
+      is as before *)
+Definition check_request (f : fstate) (h setid : N) (ok : bool) (before after : obs) : bool :=
+  if f_accepts f h setid then ok && outcome_n_eqb (o_highest after) (Ok h)
   else negb ok && obs_eqb before after.
 
 (* 2. after a successful request every number up to the head's is answered from the finalised
-      chain *)
+      chain, and the database's own number index holds the finalised chain *)
 Definition check_by_number (f' : fstate) (after : obs) : bool :=
   forallb (fun p =>
              match lookup (fst p) (f_chain f') with
@@ -109,6 +136,10 @@ Definition check_by_number (f' : fstate) (after : obs) : bool :=
   && forallb (fun c => match lookup (fst c) (o_bynum after) with
                        | Some r => outcome_n_eqb r (Ok (snd c))
                        | None => true    (* number not among the observed ones *)
+                       end) (f_chain f')
+  && forallb (fun c => match lookup (fst c) (o_dbnum after) with
+                       | Some r => option_n_eqb r (Some (snd c))
+                       | None => true
                        end) (f_chain f').
 
 (* 3. no leftovers: a block that is neither on the finalised chain nor held any more is gone:
@@ -137,7 +168,22 @@ Definition check_no_leftovers (f' : fstate) (after : obs) : bool :=
              else true) (o_flags after).
 
 (* the three together, for one request *)
-Definition check_finalisation (f : fstate) (h : N) (ok : bool) (before after : obs) : bool :=
-  check_request f h ok before after
+Definition check_finalisation (f : fstate) (h setid : N) (ok : bool) (before after : obs) : bool :=
+  check_request f h setid ok before after
   && (if ok then let f' := f_fin f h in check_by_number f' after && check_no_leftovers f' after
       else true).
+
+(* ------------------------------------------------------------------ vm_compute cross-check of the driver *)
+
+(* did each operation of the history succeed *)
+Fixpoint srun_oks (st : bstate) (ops : list sop) : list bool :=
+  match ops with
+  | [] => []
+  | o :: r => (match snd (sstep st o) with Ok _ => true | _ => false end) :: srun_oks (fst (sstep st o)) r
+  end.
+
+(* the history replayed inside Coq gives the success flags and the final finalised head the
+   implementation reported *)
+Definition fin_matches (g groot : N) (ops : list sop) (oks : list bool) (head : N) : bool :=
+  list_eqb Bool.eqb (srun_oks (genesis_state g groot) ops) oks
+  && outcome_n_eqb (highest_finalised_hash (srun (genesis_state g groot) ops)) (Ok head).
